@@ -778,3 +778,16 @@ Example F4_fixed_witness :
   http_store_hdr fx_all true h_aged 0 (secs 1000) (secs 1000) = Some (secs 1) /\
   http_store_hdr fx_all true h_badexp (secs 5) (secs 1000) (secs 1000) = None.
 Proof. vm_compute. splits; reflexivity. Qed.
+
+(** with the repair of C10-F4 (a3cbbb3): no guard *)
+Theorem http_hdr_within_rfc_fixed : forall f cachable h dflt now1 now2 ttl,
+  fx2 f = true -> fx4 f = true -> now1 <= now2 -> 0 <= hv_age h ->
+  http_store_hdr f cachable h dflt now1 now2 = Some ttl ->
+  exists l, rfc_remaining h dflt now2 = Some l /\ 0 < ttl /\ ttl <= l.
+Proof. intros f cachable h dflt now1 now2 ttl H2 H4 Hn Ha. apply http_hdr_within_rfc; auto. apply guard_F4_fixed. exact H4. Qed.
+
+Theorem http_hdr_not_stored_when_stale_fixed : forall f cachable h dflt now1 now2 l,
+  fx2 f = true -> fx4 f = true -> now1 <= now2 -> 0 <= hv_age h ->
+  rfc_remaining h dflt now2 = Some l -> l <= 0 ->
+  http_store_hdr f cachable h dflt now1 now2 = None.
+Proof. intros f cachable h dflt now1 now2 l H2 H4 Hn Ha. apply http_hdr_not_stored_when_stale; auto. apply guard_F4_fixed. exact H4. Qed.
